@@ -476,6 +476,20 @@ Plan genHostile(const std::string& prop, int tier, uint64_t batchSeed, uint64_t 
     const bool enFault = r.chance(4, 5), enOrphan = r.chance(2, 3), enTecmp = r.chance(1, 2), enNoise = r.chance(1, 2), enRestart = r.chance(1, 3),
                enStale = r.chance(1, 3);
     const uint32_t faultRate = static_cast<uint32_t>(r.pick<int64_t>({5, 15, 30, 60}));
+    if (!c17 && r.chance(1, tier ? 40 : 150))  // (C17 compares the whole pending table after every call: quadratic there)
+    {
+        // thousands of endpoints with an unfinished message each: tables far beyond any small-scope bound
+        const size_t nEp = 4100 + r.below(1200);
+        for (size_t k = 0; k < nEp; ++k)
+        {
+            Item& op = g.addOp(OP_RAW, noiseNode, 1);
+            op.set("dev", static_cast<int64_t>(k % 65536)).set("stream", static_cast<int64_t>((k / 7) % 256)).set("ver", 1).set("mtype", 1).set("lat", 1);
+            Item m("m");
+            m.set("kind", 0).set("ptype", 0x20).set("len", r.range(0, 3)).set("id", g.msgId()).set("seg", 1);
+            op.sub.push_back(std::move(m));
+        }
+        g.cfg().set("crowd5000", 1);
+    }
     const bool flood = !c02 && !manyEndpoints && nNodes >= 2 && r.chance(1, tier ? 25 : 60);
     if (flood)
     {
